@@ -1529,7 +1529,8 @@ class EArray(Engine):
                 return {'skip': 'list operand'}
             return self._list_operand(opname, rhs['list'], pyop, xs)
         s = self.pyval(rhs.get('s'))
-        if s is None or isinstance(s, bytes) or (isinstance(s, str) and opname not in ('eq', 'ne', 'add')):
+        if s is None or (isinstance(s, bytes) and not (self.dt.kind == 'bytes' and opname in CMP)) or (isinstance(s, str) and opname not in ('eq', 'ne', 'add')):
+            # (a bytes object next to a non-bytes Array is an Array initialiser, not a scalar; next to a bytes Array it is an item value)
             return {'skip': 'scalar'}
         if self._heavy(opname, xs, [s] * n):
             return {'skip': 'heavy'}
